@@ -34,11 +34,16 @@ func endingsUnderBackPressure(c *runner.Cfg, res *report.Result, _ *netx.RecLogg
 	}
 	c.Cases("C06/stall", n, func(idx int, slot *journal.Slot) {
 		r := rng.New(c.Seed, "c06/stall", uint64(idx))
-		stallServer := idx%2 == 1 // whose outbound direction is stalled (and whose endings have to wait)
+		stallServer := idx%3 == 1 // whose outbound direction is stalled (and whose endings have to wait)
+		// third variant: the client's outbound direction is stalled, but its write queue is large and
+		// only holds a backlog: the client's close frames are queued behind it, the server's close
+		// frames for the same channels arrive and are processed first, and the stale close frames are
+		// dequeued after the stall ("crossing closes")
+		queued := idx%3 == 2
 		victims := 4 + r.Intn(8)
 		slot.SetString(fmt.Sprintf("C06/stall:%d stallServer=%v victims=%d", idx, stallServer, victims))
 		res.Eval(1)
-		w := map[string]any{"stream": "C06/stall", "index": idx, "stalled_side": map[bool]string{false: "client", true: "server"}[stallServer], "victims": victims, "write_queue": 4096}
+		w := map[string]any{"stream": "C06/stall", "index": idx, "stalled_side": map[bool]string{false: "client", true: "server"}[stallServer], "victims": victims, "write_queue": 4096, "close_frames_queued_behind_backlog": queued}
 		const (
 			roleVictim  = 0x00C60000
 			roleWitness = 0x00C60001
@@ -90,9 +95,12 @@ func endingsUnderBackPressure(c *runner.Cfg, res *report.Result, _ *netx.RecLogg
 			return status.OK
 		})
 		srvOpts, cliOpts := Opts(0, 0, 0, 0, false), Opts(0, 0, 0, 0, false)
-		if stallServer {
+		switch {
+		case stallServer:
 			srvOpts = Opts(0, 4096, 0, 0, false)
-		} else {
+		case queued:
+			// default (large) write queue
+		default:
 			cliOpts = Opts(0, 4096, 0, 0, false)
 		}
 		srv, addr, err := StartServer(h, logger, srvOpts)
@@ -161,7 +169,19 @@ func endingsUnderBackPressure(c *runner.Cfg, res *report.Result, _ *netx.RecLogg
 			}
 		}()
 		stalled := false
-		if !stallServer {
+		if queued {
+			px.PauseUp.Store(true)
+			sink := open([]byte("sink"))
+			if sink != nil {
+				fillers = append(fillers, sink)
+				for i := 0; i < 24; i++ { // 6 MiB of backlog in front of the close frames
+					if st := sink.Send(async.TimeoutContext(300*time.Millisecond), blob); !st.OK() {
+						break
+					}
+				}
+				stalled = true
+			}
+		} else if !stallServer {
 			px.PauseUp.Store(true)
 			tiny := open([]byte("tiny"))
 			if tiny != nil {
